@@ -193,7 +193,7 @@ fn build(fam: &'static str, r: &mut Rng, p: &Params, ads: AdScript, secret: Opti
         acts.push(Act::Eof);
     }
     Scenario { family: fam, client_addr: client, secret, max_len: 10_000, expiry: 21_600, ads, acts, clock: FIXED_NOW,
-               max_read_chunk: 0, write_script: vec![], note }
+               max_read_chunk: 0, write_script: vec![], tear_at: None, note }
 }
 
 // ------------------------------------------------------------------ printing
@@ -277,6 +277,14 @@ fn print_case(sc: &Scenario, rec: &RunRecord, pubkey: &[u8]) {
     if !rec.framed { flags |= 1; }
     if rec.out_garbled { flags |= 2; }
     if sc.write_script.iter().any(|w| matches!(w, WriteResp::Pending)) { flags |= 4; }
+    // bit 3: a write was refused half way (tear_at) and a raced adapter call completed before the writer was
+    // woken 2 ms later: the keep_alive() future owning the unfinished write_all was dropped (class K3)
+    if let Some(tp) = rec.torn_pending_at {
+        let done: Vec<u64> = rec.calls.iter().filter(|c| c.1.starts_with("CDisco") || c.1.starts_with("(CFilt") || c.1.starts_with("(CSele"))
+            .map(|c| c.0 + match &c.1[..6] { "CDisco" => sc.ads.discover.1, "(CFilt" => sc.ads.filter.1, _ => sc.ads.select.1 }).collect();
+        if done.iter().any(|h| tp <= *h && *h < tp + 2) { flags |= 8; }
+        flags |= 4;   // delayed write: compared without send times
+    }
     let biggest_in = rec.raw_in.iter().map(|x| x.1.len()).max().unwrap_or(0);
     let mut segs: Vec<String> = rec.raw_in.iter().map(|(t, b)| format!("({}, Some {})", t, g_hex(b))).collect();
     if let Some(t) = rec.eof_at { segs.push(format!("({}, None)", t)); }
@@ -773,6 +781,34 @@ fn main() {
                             sc.acts.splice(ack + 1..ack + 2, ins);
                         }
                     }
+                    run(sc, &mut r);
+                }
+            }
+            "WCAN" => {
+                // write-side cancellation (K3): the transport takes only the first 3 bytes of the Keep Alive written at
+                // the first tick and refuses the rest for 2 ms; the raced adapter call completes 1 ms after the tick.
+                // Every second case is the control: same timing, no refused write.
+                const PMS: u64 = 16_000;
+                for i in 0..(6 * scale) {
+                    let mut p = base_params(&mut r, Intent::Login);
+                    p.ka = KaPolicy::Prompt(51 + 2 * r.below(100));
+                    let mut ads = base_ads(&mut r);
+                    if let Ok(d) = &mut ads.discover.0 { if d.is_empty() { d.push(rnd_target(&mut r, 0)); } }
+                    let t0 = 1001u64;
+                    ads.discover.1 = 201 + 2 * r.below(30); ads.filter.1 = 101 + 2 * r.below(30); ads.select.1 = 51 + 2 * r.below(30);
+                    match i % 3 {
+                        0 => ads.discover.1 = PMS + 1 - t0,
+                        1 => ads.filter.1 = PMS + 1 - t0 - ads.discover.1,
+                        _ => ads.select.1 = PMS + 1 - t0 - ads.discover.1 - ads.filter.1,
+                    }
+                    let torn = (i / 3) % 2 == 0;
+                    let cl = rnd_sa(&mut r);
+                    let mut sc = build("WCAN", &mut r, &p, ads.clone(), None, cl, format!("write-side cancel race {} torn {} #{}", i % 3, torn, i));
+                    let ack = sc.acts.iter().position(|a| matches!(a, Act::Frame { id: 3, .. })).unwrap();
+                    let ci = sc.acts.iter().position(|a| matches!(a, Act::Frame { id: 0, body } if body.len() > 5 && sc.acts.iter().position(|x| std::ptr::eq(x, a)).unwrap() > ack)).unwrap();
+                    let ci_act = sc.acts[ci].clone();
+                    sc.acts.splice(ack + 1..ci + 1, vec![Act::SleepUntil(t0), ci_act]);
+                    if torn { sc.tear_at = Some(PMS); }
                     run(sc, &mut r);
                 }
             }
